@@ -2,6 +2,7 @@ SPECIFICATION Spec
 CONSTANTS
   Kind = "drape"
   Scope = 1
+  Mode = "rw"
   Deviations = {}
 VIEW vw
 INVARIANT CacheCoherent
